@@ -97,7 +97,8 @@ its `qs` are the ids of the commands queued in the component (`Sync`), which is 
 `DrainCommandQueue` tests. The tick event is `W.runStages (W.Drv.stages outCap)`; the commands it
 dequeued are dequeued in the id queues (`syncQs`) and the subscribers of those queues are notified
 (`notifyChanged`). Two more actors: the connection delivers a `LaunchKernelRsp` / retrieves a request
-(`W.step .deliver/.retrieve`). With kernels a queue can be non-empty while the driver rightly sleeps
+(`W.step .deliver/.retrieve`) — connections are components of the same serial engine, so they act only
+while the engine goroutine is inside `Run`, between events (`e = loop`). With kernels a queue can be non-empty while the driver rightly sleeps
 (waiting for the GPU), so `K`'s invariant does not hold here — the link `owed ⇒ willSignal ∨ r = tick`
 and the refinement to `W.step` do. -/
 namespace G
@@ -145,14 +146,17 @@ def step (kind : Nat → W.Drv.Cmd) (inCap outCap : Nat) (s : St) : Th → Optio
     else if K.isTickPc s.k.e then none
     else (K.step s.k .eng).map fun k' => { s with k := k' }
   | .deliver m =>
-    if s.core.inb.length < inCap then
+    if s.k.e = .loop ∧ s.core.inb.length < inCap then
       some { s with core := { s.core with inb := s.core.inb ++ [m] },
                     k := { s.k with evt := s.k.evt || s.core.inb.isEmpty } }
     else none
-  | .retrieve => match s.core.outb with
-    | [] => none
-    | _ :: rest => some { s with core := { s.core with outb := rest },
-                                 k := { s.k with evt := s.k.evt || (s.core.outb.length == outCap) } }
+  | .retrieve =>
+    if s.k.e = .loop then
+      match s.core.outb with
+      | [] => none
+      | _ :: rest => some { s with core := { s.core with outb := rest },
+                                   k := { s.k with evt := s.k.evt || (s.core.outb.length == outCap) } }
+    else none
 
 def init (scripts : List (List K.Op)) (nq : Nat) : St :=
   { k := K.init scripts nq, core := { d := { qs := List.replicate nq {}, cyc := none } } }
@@ -229,7 +233,7 @@ def step (kind : Nat → W.Full.Cmd) (caps : W.Full.Caps) (s : St) : Th → Opti
              core := y.core, ext := y.ext, owed := y.owed }
     else if K.isTickPc s.k.e then none
     else (K.step s.k .eng).map fun k' => { s with k := k' }
-  | .env ev => if envOk ev then some (put s.k (W.Full.step caps (sysOf s) ev)) else none
+  | .env ev => if envOk ev = true ∧ s.k.e = .loop then some (put s.k (W.Full.step caps (sysOf s) ev)) else none
 
 def init (cfg : W.Full.Cfg) (scripts : List (List K.Op)) : St :=
   { k := K.init scripts cfg.ctxs.length, core := (W.Full.init cfg).core }
